@@ -7,47 +7,51 @@ set_option linter.unusedVariables false
 
 namespace Threads.RCache
 
-/-- `sv` is a sequential meaning of the keys: raw keys extract, virtual keys apply their function to
-    the meanings of their dependencies -/
-def Sound (c : Cfg) (sv : Nat → Nat) : Prop :=
+/-- `sv`, `bad` are a sequential meaning of the keys: raw keys extract, virtual keys apply their function to
+    the meanings of their dependencies and raise when a dependency raises, missing keys raise (`bad`) -/
+def Sound (c : Cfg) (sv : Nat → Nat) (bad : Nat → Bool) : Prop :=
   ∀ k, match c.kind k with
-    | .raw => sv k = c.ext k
-    | .virt ds => sv k = c.vf k (ds.map sv)
+    | .raw => sv k = c.ext k ∧ bad k = false
+    | .virt ds => bad k = ds.any bad ∧ (bad k = false → sv k = c.vf k (ds.map sv))
+    | .missing => bad k = true
 
-def FrameOK (c : Cfg) (sv : Nat → Nat) (f : Frame) : Prop :=
+def FrameOK (c : Cfg) (sv : Nat → Nat) (bad : Nat → Bool) (f : Frame) : Prop :=
   match f.pc with
-  | .deps rem acc => ∃ done, c.kind f.key = .virt (done ++ rem) ∧ acc = done.map sv
-  | .setAcq v => v = sv f.key
-  | .setStore v => v = sv f.key
-  | .setRel v => v = sv f.key
-  | .store v => v = sv f.key
-  | .rel v => v = sv f.key
-  | .ret v => v = sv f.key
+  | .deps rem acc => ∃ done, c.kind f.key = .virt (done ++ rem) ∧ acc = done.map sv ∧ ∀ d ∈ done, bad d = false
+  | .setAcq v => v = sv f.key ∧ bad f.key = false
+  | .setStore v => v = sv f.key ∧ bad f.key = false
+  | .setRel v => v = sv f.key ∧ bad f.key = false
+  | .store v => v = sv f.key ∧ bad f.key = false
+  | .rel v => v = sv f.key ∧ bad f.key = false
+  | .ret v => v = sv f.key ∧ bad f.key = false
   | .extract => c.kind f.key = .raw
   | .acq => True
   | .lookup => True
+  | .relErr => bad f.key = true
+  | .retErr => bad f.key = true
 
 /-- the activation below is waiting for exactly this key -/
 def Link (key : Nat) : List Frame → Prop
   | [] => True
   | g :: _ => ∃ rem acc, g.pc = .deps (key :: rem) acc
 
-def StackOK (c : Cfg) (sv : Nat → Nat) : List Frame → Prop
+def StackOK (c : Cfg) (sv : Nat → Nat) (bad : Nat → Bool) : List Frame → Prop
   | [] => True
-  | f :: r => FrameOK c sv f ∧ Link f.key r ∧ StackOK c sv r
+  | f :: r => FrameOK c sv bad f ∧ Link f.key r ∧ StackOK c sv bad r
 
-structure Inv (c : Cfg) (sv : Nat → Nat) (n : Nat) (s : State) : Prop where
+structure Inv (c : Cfg) (sv : Nat → Nat) (bad : Nat → Bool) (n : Nat) (s : State) : Prop where
   notOwner : ∀ t, s.owner ≠ some t → held (s.th t).stack = 0
   isOwner : ∀ t, s.owner = some t → held (s.th t).stack = s.depth ∧ 0 < s.depth ∧ t < n
   noOwner : s.owner = none → s.depth = 0
-  cacheVal : ∀ k v, s.cache k = some (.val v) → v = sv k
+  cacheVal : ∀ k v, s.cache k = some (.val v) → v = sv k ∧ bad k = false
   cacheRaw : ∀ k, c.kind k = .raw → s.cache k ≠ none
   cacheGetter : ∀ k, s.cache k = some .getter → c.kind k = .raw
-  stacks : ∀ t, StackOK c sv (s.th t).stack
-  results : ∀ t k v, (k, v) ∈ (s.th t).results → v = sv k
+  stacks : ∀ t, StackOK c sv bad (s.th t).stack
+  results : ∀ t k v, (k, v) ∈ (s.th t).results → v = sv k ∧ bad k = false
+  errs : ∀ t k, k ∈ (s.th t).errs → bad k = true
 
-theorem inv_init (c : Cfg) (sv : Nat → Nat) (n : Nat) (prog : Tid → List Nat) : Inv c sv n (init c prog) := by
-  refine ⟨?_, ?_, ?_, ?_, ?_, ?_, ?_, ?_⟩
+theorem inv_init (c : Cfg) (sv : Nat → Nat) (bad : Nat → Bool) (n : Nat) (prog : Tid → List Nat) : Inv c sv bad n (init c prog) := by
+  refine ⟨?_, ?_, ?_, ?_, ?_, ?_, ?_, ?_, ?_⟩
   · intro t _; simp [init, held]
   · intro t h; simp [init] at h
   · intro _; simp [init]
@@ -56,13 +60,14 @@ theorem inv_init (c : Cfg) (sv : Nat → Nat) (n : Nat) (prog : Tid → List Nat
   · intro k h; simp only [init] at h; split at h <;> simp_all
   · intro t; simp [init, StackOK]
   · intro t k v h; simp [init] at h
+  · intro t k h; simp [init] at h
 
-theorem step_owner {c : Cfg} {sv : Nat → Nat} {n : Nat} {s s' : State} {t : Tid} (hre : c.reentrant = true)
-    (h : Inv c sv n s) (ht : t < n) (hs : step c s t = some s') :
+theorem step_owner {c : Cfg} {sv : Nat → Nat} {bad : Nat → Bool} {n : Nat} {s s' : State} {t : Tid} (hre : c.reentrant = true)
+    (h : Inv c sv bad n s) (ht : t < n) (hs : step c s t = some s') :
     (∀ u, s'.owner ≠ some u → held (s'.th u).stack = 0) ∧
     (∀ u, s'.owner = some u → held (s'.th u).stack = s'.depth ∧ 0 < s'.depth ∧ u < n) ∧
     (s'.owner = none → s'.depth = 0) := by
-  obtain ⟨h1, h2, h3, h4, h5, h6, h7, h8⟩ := h
+  obtain ⟨h1, h2, h3, h4, h5, h6, h7, h8, h9⟩ := h
   unfold step at hs
   cases hst : (s.th t).stack with
   | nil =>
@@ -93,11 +98,11 @@ theorem step_owner {c : Cfg} {sv : Nat → Nat} {n : Nat} {s s' : State} {t : Ti
       · intro u; have := h1 u; have := h2 u; grind [upd, held, holds]
       · grind
 
-theorem step_cache {c : Cfg} {sv : Nat → Nat} {n : Nat} {s s' : State} {t : Tid}
-    (hsv : Sound c sv) (h : Inv c sv n s) (hs : step c s t = some s') :
-    (∀ k v, s'.cache k = some (.val v) → v = sv k) ∧ (∀ k, c.kind k = .raw → s'.cache k ≠ none) ∧
+theorem step_cache {c : Cfg} {sv : Nat → Nat} {bad : Nat → Bool} {n : Nat} {s s' : State} {t : Tid}
+    (hsv : Sound c sv bad) (h : Inv c sv bad n s) (hs : step c s t = some s') :
+    (∀ k v, s'.cache k = some (.val v) → v = sv k ∧ bad k = false) ∧ (∀ k, c.kind k = .raw → s'.cache k ≠ none) ∧
     (∀ k, s'.cache k = some .getter → c.kind k = .raw) := by
-  obtain ⟨h1, h2, h3, h4, h5, h6, h7, h8⟩ := h
+  obtain ⟨h1, h2, h3, h4, h5, h6, h7, h8, h9⟩ := h
   have h7t := h7 t
   unfold step at hs
   cases hst : (s.th t).stack with
@@ -120,10 +125,10 @@ theorem step_cache {c : Cfg} {sv : Nat → Nat} {n : Nat} {s s' : State} {t : Ti
       simp only [StackOK, FrameOK] at h7t
       refine ⟨?_, ?_, ?_⟩ <;> intro k' <;> have := h4 k' <;> have := h5 k' <;> have := h6 k' <;> grind [upd]
 
-theorem step_results {c : Cfg} {sv : Nat → Nat} {n : Nat} {s s' : State} {t : Tid}
-    (hsv : Sound c sv) (h : Inv c sv n s) (hs : step c s t = some s') :
-    ∀ u k v, (k, v) ∈ (s'.th u).results → v = sv k := by
-  obtain ⟨h1, h2, h3, h4, h5, h6, h7, h8⟩ := h
+theorem step_results {c : Cfg} {sv : Nat → Nat} {bad : Nat → Bool} {n : Nat} {s s' : State} {t : Tid}
+    (hsv : Sound c sv bad) (h : Inv c sv bad n s) (hs : step c s t = some s') :
+    ∀ u k v, (k, v) ∈ (s'.th u).results → v = sv k ∧ bad k = false := by
+  obtain ⟨h1, h2, h3, h4, h5, h6, h7, h8, h9⟩ := h
   have h7t := h7 t
   unfold step at hs
   cases hst : (s.th t).stack with
@@ -146,6 +151,32 @@ theorem step_results {c : Cfg} {sv : Nat → Nat} {n : Nat} {s s' : State} {t : 
       simp only [StackOK, FrameOK] at h7t
       intro u; have := h8 u; grind [upd]
 
+theorem step_errs {c : Cfg} {sv : Nat → Nat} {bad : Nat → Bool} {n : Nat} {s s' : State} {t : Tid}
+    (hsv : Sound c sv bad) (h : Inv c sv bad n s) (hs : step c s t = some s') :
+    ∀ u k, k ∈ (s'.th u).errs → bad k = true := by
+  obtain ⟨h1, h2, h3, h4, h5, h6, h7, h8, h9⟩ := h
+  have h7t := h7 t
+  unfold step at hs
+  cases hst : (s.th t).stack with
+  | nil =>
+    simp only [hst] at hs
+    split at hs
+    · simp at hs
+    · injection hs with hs; subst hs
+      intro u; have := h9 u; grind [upd]
+  | cons f below =>
+    obtain ⟨k, pc⟩ := f
+    simp only [hst] at hs
+    rw [hst] at h7t
+    cases pc <;> simp only [setTop, releaseOwner] at hs
+    all_goals (try (split at hs))
+    all_goals (try (split at hs))
+    all_goals (try (injection hs with hs; subst hs))
+    all_goals (try (simp at hs; done))
+    all_goals
+      simp only [StackOK, FrameOK] at h7t
+      intro u; have := h9 u; grind [upd]
+
 theorem step_th_other {c : Cfg} {s s' : State} {t u : Tid} (hs : step c s t = some s') (hu : u ≠ t) :
     s'.th u = s.th u := by
   unfold step at hs
@@ -165,10 +196,26 @@ theorem step_th_other {c : Cfg} {s s' : State} {t u : Tid} (hs : step c s t = so
     all_goals (try (simp at hs; done))
     all_goals simp [upd, hu]
 
-theorem step_stacks {c : Cfg} {sv : Nat → Nat} {n : Nat} {s s' : State} {t : Tid}
-    (hsv : Sound c sv) (h : Inv c sv n s) (hs : step c s t = some s') :
-    ∀ u, StackOK c sv (s'.th u).stack := by
-  obtain ⟨h1, h2, h3, h4, h5, h6, h7, h8⟩ := h
+theorem val_of_virt {c : Cfg} {sv : Nat → Nat} {bad : Nat → Bool} (hsv : Sound c sv bad) {k : Nat} {done : List Nat}
+    (hkd : c.kind k = .virt (done ++ [])) (hnb : ∀ d ∈ done, bad d = false) :
+    c.vf k (done.map sv) = sv k ∧ bad k = false := by
+  have hk := hsv k
+  rw [hkd] at hk
+  simp only [List.append_nil] at hk
+  have hb : bad k = false := by
+    rw [hk.1]; simpa using hnb
+  exact ⟨(hk.2 hb).symm, hb⟩
+
+theorem bad_of_virt {c : Cfg} {sv : Nat → Nat} {bad : Nat → Bool} (hsv : Sound c sv bad) {k d : Nat} {done r : List Nat}
+    (hkd : c.kind k = .virt (done ++ d :: r)) (hd : bad d = true) : bad k = true := by
+  have hk := hsv k
+  rw [hkd] at hk
+  rw [hk.1]; simp [hd]
+
+theorem step_stacks {c : Cfg} {sv : Nat → Nat} {bad : Nat → Bool} {n : Nat} {s s' : State} {t : Tid}
+    (hsv : Sound c sv bad) (h : Inv c sv bad n s) (hs : step c s t = some s') :
+    ∀ u, StackOK c sv bad (s'.th u).stack := by
+  obtain ⟨h1, h2, h3, h4, h5, h6, h7, h8, h9⟩ := h
   have h7t := h7 t
   intro u
   have h7u := h7 u
@@ -196,21 +243,34 @@ theorem step_stacks {c : Cfg} {sv : Nat → Nat} {n : Nat} {s s' : State} {t : T
         simp only [StackOK, FrameOK, upd_same] at h7t ⊢
       all_goals (first | (grind [Link]) | skip)
       all_goals first
-        | exact ⟨⟨[], by simpa using ‹c.kind k = _›, rfl⟩, h7t.2.1, h7t.2.2⟩
-        | (obtain ⟨hv, hl, ⟨done, hkd, hacc⟩, hl2, hso⟩ := h7t
+        | exact ⟨⟨[], by simpa using ‹c.kind k = _›, rfl, by simp⟩, h7t.2.1, h7t.2.2⟩
+        | (obtain ⟨⟨done, hkd, hacc, hnb⟩, hl, hso⟩ := h7t
+           exact ⟨hacc ▸ val_of_virt hsv hkd hnb, hl, hso⟩)
+        | (obtain ⟨hv, hl, ⟨done, hkd, hacc, hnb⟩, hl2, hso⟩ := h7t
            simp only [Link] at hl
            obtain ⟨rem', acc', he⟩ := hl
            injection he with he1 he2
            injection he1 with he1 he3
-           refine ⟨⟨done ++ [k], ?_, ?_⟩, hl2, hso⟩
+           refine ⟨⟨done ++ [k], ?_, ?_, ?_⟩, hl2, hso⟩
            · rw [hkd, he1]; simp
-           · simp [hacc, hv])
+           · simp [hacc, hv.1]
+           · intro d hd
+             simp only [List.mem_append, List.mem_singleton] at hd
+             rcases hd with hd | hd
+             · exact hnb d hd
+             · rw [hd]; exact hv.2)
+        | (obtain ⟨hv, hl, ⟨done, hkd, hacc, hnb⟩, hl2, hso⟩ := h7t
+           simp only [Link] at hl
+           obtain ⟨rem', acc', he⟩ := hl
+           injection he with he1 he2
+           injection he1 with he1 he3
+           exact ⟨bad_of_virt hsv hkd (he1 ▸ hv), hl2, hso⟩)
   · rw [step_th_other hs hu]; exact h7u
 
 /-- the holder of the re-entrant lock is never blocked (in particular not by itself) -/
-theorem owner_can_step {c : Cfg} {sv : Nat → Nat} {n : Nat} {s : State} {t : Tid} (hre : c.reentrant = true)
-    (h : Inv c sv n s) (ho : s.owner = some t) : (step c s t).isSome = true := by
-  obtain ⟨h1, h2, h3, h4, h5, h6, h7, h8⟩ := h
+theorem owner_can_step {c : Cfg} {sv : Nat → Nat} {bad : Nat → Bool} {n : Nat} {s : State} {t : Tid} (hre : c.reentrant = true)
+    (h : Inv c sv bad n s) (ho : s.owner = some t) : (step c s t).isSome = true := by
+  obtain ⟨h1, h2, h3, h4, h5, h6, h7, h8, h9⟩ := h
   have h7t := h7 t
   have h2t := h2 t ho
   unfold step
@@ -232,14 +292,25 @@ theorem owner_can_step {c : Cfg} {sv : Nat → Nat} {n : Nat} {s : State} {t : T
         simp only at he
         subst he
         simp
+    case retErr =>
+      cases below with
+      | nil => simp
+      | cons g more =>
+        obtain ⟨_, hl, _⟩ := h7t
+        simp only [Link] at hl
+        obtain ⟨rem', acc', he⟩ := hl
+        obtain ⟨k', pc'⟩ := g
+        simp only at he
+        subst he
+        simp
     all_goals (try (split))
     all_goals (try (split))
     all_goals (try (simp; done))
     all_goals (grind [Link])
 
 /-- with the lock free every thread that has work left can move -/
-theorem free_can_step {c : Cfg} {sv : Nat → Nat} {n : Nat} {s : State} {t : Tid}
-    (h : Inv c sv n s) (ho : s.owner = none) (ha : active s t = true) : (step c s t).isSome = true := by
+theorem free_can_step {c : Cfg} {sv : Nat → Nat} {bad : Nat → Bool} {n : Nat} {s : State} {t : Tid}
+    (h : Inv c sv bad n s) (ho : s.owner = none) (ha : active s t = true) : (step c s t).isSome = true := by
   have h1t := h.notOwner t (by simp [ho])
   unfold step
   cases hst : (s.th t).stack with
@@ -266,17 +337,28 @@ theorem free_can_step {c : Cfg} {sv : Nat → Nat} {n : Nat} {s : State} {t : Ti
         simp only at he
         subst he
         simp [hst]
+    case retErr =>
+      cases below with
+      | nil => simp [hst]
+      | cons g more =>
+        obtain ⟨_, hl, _⟩ := h7t
+        simp only [Link] at hl
+        obtain ⟨rem', acc', he⟩ := hl
+        obtain ⟨k', pc'⟩ := g
+        simp only at he
+        subst he
+        simp [hst]
 
-theorem inv_step {c : Cfg} {sv : Nat → Nat} {n : Nat} {s s' : State} {t : Tid} (hre : c.reentrant = true)
-    (hsv : Sound c sv) (h : Inv c sv n s) (ht : t < n) (hs : step c s t = some s') : Inv c sv n s' := by
+theorem inv_step {c : Cfg} {sv : Nat → Nat} {bad : Nat → Bool} {n : Nat} {s s' : State} {t : Tid} (hre : c.reentrant = true)
+    (hsv : Sound c sv bad) (h : Inv c sv bad n s) (ht : t < n) (hs : step c s t = some s') : Inv c sv bad n s' := by
   obtain ⟨a1, a2, a3⟩ := step_owner hre h ht hs
   obtain ⟨b1, b2, b3⟩ := step_cache hsv h hs
-  exact ⟨a1, a2, a3, b1, b2, b3, step_stacks hsv h hs, step_results hsv h hs⟩
+  exact ⟨a1, a2, a3, b1, b2, b3, step_stacks hsv h hs, step_results hsv h hs, step_errs hsv h hs⟩
 
-theorem reach_inv {c : Cfg} {sv : Nat → Nat} {n : Nat} {prog : Tid → List Nat} (hre : c.reentrant = true)
-    (hsv : Sound c sv) {s : State} (h : Reach c n prog s) : Inv c sv n s := by
+theorem reach_inv {c : Cfg} {sv : Nat → Nat} {bad : Nat → Bool} {n : Nat} {prog : Tid → List Nat} (hre : c.reentrant = true)
+    (hsv : Sound c sv bad) {s : State} (h : Reach c n prog s) : Inv c sv bad n s := by
   induction h with
-  | init => exact inv_init c sv n prog
+  | init => exact inv_init c sv bad n prog
   | step _ ht hs ih => exact inv_step hre hsv ih ht hs
 
 theorem reach_of_run {c : Cfg} {n : Nat} {prog : Tid → List Nat} : ∀ (sched : List Tid) (s s' : State),
